@@ -491,6 +491,74 @@ def run_poked(rng, res, stats):
     return case
 
 
+def run_many(rng, res, stats, nw):
+    """Oracle only (size-independent): a plurality contest with 25-40 candidates and nw winners (24-39 assertions for one
+    winner, up to ~110 for three) next to a small second contest; every assertion meets its limit except one offender
+    (just above the limit, NaN, 1, 1.5 x limit) placed at EVERY position in turn, and once nowhere.  summarize_status must
+    be False exactly when there is an offender, contest.max_p / the returned value must be the true maxima."""
+    A = lib()
+    ncand = rng.randint(25, 40)
+    cands = [f"cand{i:02d}" for i in range(ncand)]
+    lim_big, lim_small = rng.sample(LIMITS, 2)
+    dd = {"big": {"risk_limit": lim_big, "cards": 80, "choice_function": A.Contest.SOCIAL_CHOICE_FUNCTION.PLURALITY,
+                  "n_winners": nw, "candidates": cands, "winner": cands[:nw], "audit_type": A.Audit.AUDIT_TYPE.POLLING,
+                  "use_style": True, "test": NM().alpha_mart, "test_kwargs": {}},
+          "small": {"risk_limit": lim_small, "cards": 80, "choice_function": A.Contest.SOCIAL_CHOICE_FUNCTION.PLURALITY,
+                    "n_winners": 1, "candidates": ["Alice", "Bob"], "winner": ["Alice"],
+                    "audit_type": A.Audit.AUDIT_TYPE.POLLING, "use_style": True, "test": NM().alpha_mart, "test_kwargs": {}}}
+    order = ["big", "small"] if rng.random() < 0.5 else ["small", "big"]
+    contests = A.Contest.from_dict_of_dicts({k: dd[k] for k in order})
+    A.Assertion.make_all_assertions(contests)
+    audit = A.Audit.from_dict({"strata": {"s": {"use_style": True, "max_cards": 80}}})
+    keys = list(contests["big"].assertions)
+    nas = len(keys)
+    stats["many_assertions"].append(nas)
+    mvrs = [A.CVR(id=f"m{i}", votes={"big": {rng.choice(cands): 1}, "small": {"Alice": 1}}) for i in range(3)]
+    config = {"big": {"candidates": ncand, "winners": nw, "assertions": nas, "risk_limit": lim_big},
+              "small": {"risk_limit": lim_small}, "order": order}
+    offenders = [float(np.nextafter(lim_big, 1)), float("nan"), 1.0, lim_big * 1.5]
+    for pos in [None] + list(range(nas)):
+        good = {a: rng.choice([lim_big / 2, lim_big, 0.0, lim_big / 4, lim_big / 8]) for a in keys}
+        via_set = pos is None or nas <= 45 or pos % 5 == 0 or pos >= nas - 3
+        case = {"config": dict(config, offender_position=pos, offender_key=None if pos is None else keys[pos]),
+                "order": order, "init": None, "steps": []}
+        if pos is not None:
+            good[keys[pos]] = offenders[pos % len(offenders)] if rng.random() < 0.8 else rng.choice(offenders)
+        small_p = rng.choice([lim_small / 2, lim_small, 0.0])
+        if via_set:
+            for a, asn in contests["big"].assertions.items():
+                asn.test = StubTest([good[a]])
+            for a, asn in contests["small"].assertions.items():
+                asn.test = StubTest([small_p])
+            before = read_state(contests)
+            tests = recompute(contests, mvrs, None)
+            s_ = {"op": "set", "lens_ok": True, "tests": tests, "n": len(mvrs)}
+            try:
+                s_["ret"] = fx(A.Assertion.set_p_values(contests, mvrs, None))
+            except Exception as e:  # noqa
+                s_["ret"], s_["exc"] = None, f"{type(e).__name__}: {e}"
+            s_["after"] = read_state(contests)
+            case["steps"].append(s_)
+            oracle_set(res, case, before, s_)
+            stats["set"] += 1
+        else:                                                          # state written directly into the objects
+            for a, asn in contests["big"].assertions.items():
+                asn.p_value = good[a]
+            for a, asn in contests["small"].assertions.items():
+                asn.p_value = small_p
+        before = read_state(contests)
+        with contextlib.redirect_stdout(io.StringIO()):
+            ret = audit.summarize_status(contests)
+        s_ = {"op": "sum", "ret": bool(ret), "after": read_state(contests)}
+        case["steps"].append(s_)
+        oracle_sum(res, case, before, s_)
+        stats["sum"] += 1
+        stats["many_summaries"] += 1
+        stats["sum_true"] += int(bool(ret))
+        if rng.random() < 0.1:
+            A.Assertion.reset_p_values(contests)
+
+
 # ---------------------------------------------------------------- check_audit_parameters
 CAP_MSG = [(1, "expected rate of 1-vote errors"), (2, "expected rate of 2-vote errors"), (3, "negative in contest"),
            (4, "exceeds 1/2 in contest"), (5, "unsupported choice function"), (6, "more winners than candidates"),
@@ -576,12 +644,15 @@ def cap_oracle(res, c):
 
 def run(ctx, res):
     rng = ctx.rng
-    stats = {"set": 0, "sum": 0, "reset": 0, "set_raises": 0, "sum_true": 0, "poked_single_offender": 0}
+    stats = {"set": 0, "sum": 0, "reset": 0, "set_raises": 0, "sum_true": 0, "poked_single_offender": 0, "many_assertions": [],
+             "many_summaries": 0}
     cases = []
     for _ in range(ctx.n(240, 3000)):
         cases.append(run_sequence(rng, res, stats))
     for _ in range(ctx.n(300, 4000)):
         cases.append(run_poked(rng, res, stats))
+    for nw in ([1, 1, 2, 3] if ctx.quick else [1, 1, 1, 2, 2, 3, 3, 4]):
+        run_many(rng, res, stats, nw)
     cr = C.run_corr(ctx.pid, "seq", IMPORTS, "list contest * list step", cases, seq_lit, "agree_seq", shard=min(250, max(20, -(-len(cases) // 16))), show="show_seq")
     res.corr.append(("set_p_values / summarize_status / reset_p_values sequences vs Status.v", cr, seq_json))
     caps = [gen_cap(rng) for _ in range(ctx.n(300, 5000))]
@@ -623,6 +694,8 @@ def run(ctx, res):
                 "1-6 JSON assertions), audit types comparison / ONEAudit / polling, nine test configurations plus 25% stub tests "
                 "(NaN, p exactly at the limit, p > 1), risk limits from 0.001 to 0.5, contests dict shuffled in half the cases; "
                 "sequences of set_p_values / summarize_status / reset_p_values on the same objects with a fresh sample per set; "
-                "non-trivial = at least two different p-values recorded in the sequence")
+                "non-trivial = at least two different p-values recorded in the sequence. Oracle-only stream: plurality contests with "
+                "25-40 candidates and 1-3 winners (24 to ~110 assertions) beside a small contest, one offending assertion at every "
+                "position in turn")
     res.assumptions = ["the statistical test is a parameter of the model (test : contest -> assertion -> result); its value in the runs "
                        "is asn.test.test(asn.mvrs_to_data(...)) of /repo recomputed by the harness on deep copies before each call"]
